@@ -43,9 +43,9 @@ LEVEL_TEXT = (
 )
 LEVEL_NOTE = "Trusted: plotly / matplotlib object model as the observation point. Bounded sizes; finite value alphabet."
 
-ITEMS = {"t": [2000, 2001, 2002], "p": ["p1", "p2"], "q": ["q1", "q2"]}
+ITEMS = {"t": [2000, 2001, 0], "p": ["p1", "p2"], "q": ["q1", "q2"]}
 NAMES = {"t": "Time", "p": "Product", "q": "Quality"}
-PROCS = ["sysenv", "prod", "use", "waste"]
+PROCS = ["sysenv", "use", "reuse", "waste"]
 FLOW_POOL = [("", 0), ("t", 1), ("tp", 2), ("pt", 3), ("pqt", 4)]
 
 
@@ -216,7 +216,7 @@ def hash_idx(sel):
     return s
 
 
-SLICES = [{}, {"Time": 2001}, {"t": 2001}, {"p": "p2"}, {"q": "q1"}, {"t": 2000, "p": "p1"}, {"p": ["p2"]}, {"t": [2002, 2000]}, {"q": "q2", "t": 2002}]
+SLICES = [{}, {"Time": 2001}, {"t": 2001}, {"p": "p2"}, {"q": "q1"}, {"t": 2000, "p": "p1"}, {"p": ["p2"]}, {"t": [0, 2000]}, {"q": "q2", "t": 0}]
 SPLITS = [None, ("t", "name"), ("p", "letter"), ("p", "name"), ("q", "letter"), ("t", "letter")]
 
 
